@@ -45,7 +45,9 @@ manifest = {
     "version": 1,
     # one cargo invocation per package: a workspace-wide build would unify features (hfdsync enables compio-driver/sync,
     # which must stay off for hfd's compile-time proof that SharedFd is not Send), and it is what the checks do anyway
-    "setup_cmd": "cd /verif/harness && ([ -f Cargo.lock ] || cp /repo/Cargo.lock .) && for p in hcore hio hcompat htime hexec hdisp hactor hproc hfs hnet hsec hquic hdrv hpool hfd hfdsync hbp; do CARGO_NET_OFFLINE=true cargo build --offline -q -p $p --bins || exit 1; done",
+    "setup_cmd": "cd /verif/harness && ([ -f Cargo.lock ] || cp /repo/Cargo.lock .) && for p in hcore hio hcompat htime hexec hdisp hactor hproc hfs hnet hsec hquic hdrv hpool hfd hfdsync hbp; do CARGO_NET_OFFLINE=true cargo build --offline -q -p $p --bins || exit 1; done"
+                 # the compio-compat leg of C03 / C02 (lib/checks/x03.py) lives in the extension workspace
+                 " && cd /verif/extra/harness && ([ -f Cargo.lock ] || cp /repo/Cargo.lock .) && CARGO_NET_OFFLINE=true cargo build --offline -q -p hx03 --bins",
     "hooks": {
         "guard": "cfg(compio_verif)",
         "enable": "RUSTFLAGS --cfg compio_verif via /verif/harness/.cargo/config.toml (the harness workspace has path dependencies on /repo and rebuilds from its working tree)",
